@@ -225,6 +225,8 @@ class Built:
         self.arrays = {}        # channel op index -> ndarray handed over (or to be handed at write)
         self.error = None       # exception constructing DLISFile / logical files
         self.payload_refs = {}  # nf_data op index -> the payload object handed over
+        self.caller_reuses_lists = False
+        self.shared_lists = {}  # keyword -> the one list object the caller uses for it (caller_reuses_lists)
 
     def ok(self, i):
         return self.outcomes[i][0] == 'ok'
@@ -292,6 +294,7 @@ def build(spec: dict) -> Built:
         b.error = _exc(e)
         return b
     source = spec.get('write', {}).get('source', 'inline')
+    b.caller_reuses_lists = bool(spec.get('caller_reuses_lists'))
     for i, op in enumerate(spec['ops']):
         try:
             run_op(b, i, op, source)
@@ -300,6 +303,9 @@ def build(spec: dict) -> Built:
             raise
         except Exception as e:  # noqa
             b.outcomes.append(_exc(e))
+    if spec.get('caller_reuses_lists') != 'keeps-last':
+        for shared in b.shared_lists.values():
+            shared.clear()              # the caller is done with its lists
     return b
 
 
@@ -325,6 +331,15 @@ def run_op(b: Built, i: int, op: dict, source: str = 'inline') -> None:
     if kind in schema.TYPES:
         lf = b.lfs[op.get('lf', 0)]
         kwargs = {k: mat_checked(v, b) for k, v in op.get('attrs', {}).items()}
+        if b.caller_reuses_lists:
+            # the caller keeps ONE list per keyword, refills it (clear / extend) for every call and empties it in the end:
+            # what the library was given is the list's content at the time of the call
+            for k_, v_ in list(kwargs.items()):
+                if isinstance(v_, (list, tuple)):
+                    shared = b.shared_lists.setdefault(k_, [])
+                    shared.clear()
+                    shared.extend(v_)
+                    kwargs[k_] = shared
         if op.get('set_name') is not None:
             kwargs['set_name'] = op['set_name']
         if 'origin_reference' in op and op['origin_reference'] is not None:
